@@ -155,9 +155,12 @@ def expect(g, tb, data, skip_ws=True, skip_nl=True, ctx_mode=None, matchers=None
                 # push_back copies the element by definition: the observed log shows C<id>; the judges strip copy events before comparing
                 node_val[id(node)] = (bid, items + [vid])
             elif rule.ftor == 'x':
-                if ctx_mode == 21: hdr = '=c#0'
-                elif ctx_mode in (22, 26): hdr = '~m#%d' % xcount
-                else: hdr = '=m#%d' % xcount
+                # identity (= the caller's object, ~ one and the same temporary), constness, value category (a context passed as an rvalue is
+                # forwarded as an rvalue to every contextual functor, whatever overload was used), calls seen so far
+                if ctx_mode == 21: hdr = '=cL#0'
+                elif ctx_mode in (22, 26): hdr = '~mR#%d' % xcount
+                elif ctx_mode in (28, 29, 30): hdr = '=mR#%d' % xcount
+                else: hdr = '=mL#%d' % xcount
                 xcount += 1
                 if vt == 'N':
                     ev.append('x%d[%s](%s)=N;' % (r, hdr, ''.join(args))); node_val[id(node)] = 0
